@@ -196,6 +196,9 @@ CATALOGUE = [
     ("squeeze", "keeps", None, lambda c: c.a.take([c.lab(0)], axis=0).squeeze()),
     ("repeat", "keeps", None, lambda c: c.a.take([c.lab(0)], axis=0).repeat(c.arg(np.array([7, 8])), axis=0)),
     ("broadcast", "keeps", lambda c: list(c.a.dims), lambda c: c.a.broadcast(c.a.newaxis("new", values=np.array([1, 2])))),
+    ("broadcast one single label onto another", None, None, lambda c: c.arg(c.a.take_axis([0], axis=0, indexing="position")).broadcast(c.arg(c.a.take_axis([-1], axis=0, indexing="position")))),
+    ("broadcast one single label onto another (transposed)", None, None, lambda c: c.arg(c.a.take_axis([0], axis=0, indexing="position")).T.broadcast(c.arg(c.a.take_axis([-1], axis=0, indexing="position")))),
+    ("broadcast_arrays with single labels", None, None, lambda c: c.da.broadcast_arrays(c.arg(c.a.take_axis([0], axis=0, indexing="position")), c.arg(c.a.take_axis([-1], axis=0, indexing="position")))),
     ("broadcast_arrays", None, None, lambda c: c.da.broadcast_arrays(c.a, c.b.take_axis([0], axis=0, indexing="position").squeeze(c.b.dims[0]) if c.b.ndim > 1 else c.a)),
     ("flatten", "keeps", None, lambda c: c.a.flatten()),
     ("flatten subset reversed", "keeps", None, lambda c: c.a.flatten(c.a.dims[::-1][:2], insert=0)),
